@@ -1,5 +1,6 @@
 import KtVerif.Model.Kmer
 import KtVerif.Proofs.KmerGen
+import KtVerif.Proofs.KmerLocal
 /-!
 # C01: the k-mer generator emits exactly the clean windows, in order
 -/
@@ -44,5 +45,21 @@ example : clean 85 = true ∧ clean 2 = true ∧ clean 78 = false ∧ isNucLette
 
 theorem nt4_letters : nt4 65 = 0 ∧ nt4 97 = 0 ∧ nt4 67 = 1 ∧ nt4 99 = 1 ∧ nt4 71 = 2 ∧ nt4 103 = 2 ∧ nt4 84 = 3 ∧ nt4 116 = 3 ∧ nt4 85 = 3 ∧ nt4 117 = 3 := by
   decide
+
+/-- locality of the specification (proved in `Proofs/KmerLocal.lean`): after a homopolymer prefix A^n (n ≥ k) the stream is
+n - k + 1 copies of the item of the all-A window, followed by the stream of A^(k-1) ++ t -/
+theorem specKmers_homopolymer_prefix (k n : Nat) (t : List Nat) (hk1 : 1 ≤ k) (hn : k ≤ n) :
+    specKmers k (List.replicate n 65 ++ t) =
+      List.replicate (n - k + 1) (enc (List.replicate k 65), rcEnc (List.replicate k 65)) ++
+        specKmers k (List.replicate (k - 1) 65 ++ t) := specKmers_homopolymer_prefix' k n t hk1 hn
+
+/-- the same for the code-shaped iterator model (proved in `Proofs/KmerLocal.lean`): forward code 0, reverse code 4^k - 1 -/
+theorem kmers_homopolymer_prefix (k n : Nat) (t : List Nat) (hk1 : 1 ≤ k) (hk : k ≤ 31) (hn : k ≤ n) :
+    kmers k (List.replicate n 65 ++ t) =
+      List.replicate (n - k + 1) (0, 4 ^ k - 1) ++ kmers k (List.replicate (k - 1) 65 ++ t) :=
+  kmers_homopolymer_prefix' k n t hk1 hk hn
+
+example : kmers 2 (List.replicate 4 65 ++ [67, 78, 71]) =
+    List.replicate 3 (0, 15) ++ kmers 2 (List.replicate 1 65 ++ [67, 78, 71]) := by decide
 
 end KT
